@@ -20,6 +20,10 @@ CHECKS = {
   text="Bounded exhaustive enumeration: every glob over a 13-token grammar up to length 3 x all 16 option sets x every path over {a,b,.,/,-,A} up to length 5 (quick) / 6 (thorough) plus non-UTF-8 variants; single globs against an independent reference matcher written from the documented syntax, glob sets (singletons, all-glob sets, mixed-option set, all pairs/triples over a strategy-covering pool) against their member globs.",
   note="Trusted: regex-automata's matching of each member glob's regex; shapes beyond the length bounds are not explored.",
   tech="bounded exhaustive enumeration (all globs x options x paths up to a size bound) against a reference model"),
+ "C13": dict(cat="exploration", ref="DESIGN.md §4 C13, Appendix A.5",
+  text="Bounded exhaustive enumeration: every pattern over a 13-token grammar (length <= 3, plus the length-4 strings with an alternation and a line-crossing token) built as rg -U builds it x LF / LF+dotall / CRLF x every input over {a,b,-,\\n[,\\r]} up to a length bound x invert x context x strategy (slice, fragmented reader, file), searcher reused across inputs; reported lines, context, separators, numbering, offsets and byte count compared with a reference that iterates the regex crate over the WHOLE input and maps matches to lines.",
+  note="Trusted: the regex crate's find_at as the meaning of the pattern; the grep model of C03 for context. Grouping of adjacent lines into one matched call is not constrained (flattened comparison). Known finding (open): inverted multi-line search resumes at the end of the matched line.",
+  tech="bounded exhaustive enumeration of patterns x inputs x configurations against a reference model (small-scope model checking)"),
  "C16": dict(cat="fault_enumeration", ref="DESIGN.md §4 C16",
   text="Exhaustive crash-point enumeration on the real searcher: for every input up to a length bound, every configuration / binary mode / matcher path / strategy, the search is re-run once per result index k with the sink answering stop and once answering error (for every event kind: begin, matched, context, context_break, binary_data), and once per read index j with the reader failing and with the reader returning Interrupted; plus -m N through the standard printer for every N. Oracle: exact prefix of the uninterrupted event list, finish exactly once after a stop and never after an error, the injected error is what the caller gets.",
   note="Trusted: the uninterrupted run of the same strategy as the reference list (C02/C03 check that list itself). Not judged: -m N in multi-line mode when two matching lines are adjacent (they are one block by design, DESIGN.md §8).",
